@@ -38,6 +38,13 @@
    discards nothing" is now proved with "did not itself request" read as
    "no request pending, or the snapshot is below the requested index".
 
+   Note (RaftLog model of main after the C14 fixes: explicit u64 overflow/underflow
+   sites in must_check_outofbounds / log_entries / maybe_append / next_entries_since):
+   no statement below changed.  The per-step theorems have an `= Ok ..` hypothesis, which
+   excludes the new sites; compaction_transparent is an equality of results that also
+   covers panics, and its hypotheses (ci <= applied <= last_index) make the new
+   `last_index + 1 - first_index` underflow test answer the same on both sides.
+
    NOT PROVED here:
    * the cross-node clause "the state after an install equals that of a node that
      applied the log up to the snapshot index" (needs the protocol-level invariant
